@@ -81,6 +81,10 @@ Inductive case :=
         (served1 : list (name * option bytes))   (* h: the sequential prefix (a CHist); then the concurrent block *)
 | CTrace (expect_ok : bool) (t : list fop)               (* one FileCache.Write under strace; expect_ok = it returned nil *)
 | CInject (panicked : bool) (content : N) (t : list fop)  (* kill / error injection: file content 0 = old, 1 = new, 2 = neither *)
+| CSlow (h : case) (offered landed : list json) (rs : option restart) (fc : option fcobs)
+        (* h: a sequential history (a CHist) some of whose Cache.Write calls took virtual seconds to minutes;
+           then, after ample time: the payloads in the order they were OFFERED to and LANDED in the cache *)
+| CFc (tbl : b64tbl) (cin : cache_input) (fc : fcobs)     (* NewFileClient on a hand-written file *)
 | CFs (old : option (list N)) (new : list N) (tr : list (Setec.Server.FS.op N)).
     (* one FileCache.Write traced with real bytes, in the vocabulary of the file-system model of C04 *)
 
@@ -239,6 +243,20 @@ Definition check_conc (names : list name) (age now : Z) (probe : list name)
              && bytes_served_eqb served1 (map (fun n => (n, option_map snd (served (m sf) n))) probe))
           (perms evs).
 
+(* after a history with slow writes: every document landed, in the order offered; the content at
+   rest is the last one; restart and file client from it agree with the final state *)
+Definition check_slow (names : list name) (age : Z) (probe : list name)
+                      (offered landed : list json) (rs : option restart) (fc : option fcobs)
+                      (s : store bytes) (c : cache_input) (clean alive : bool) : bool :=
+  list_beq jeq offered landed
+  && match rev landed, c with
+     | t :: _, Some (Some t') => jeq t t'
+     | [], _ => true
+     | _, _ => false
+     end
+  && restart_ok c names age 0%Z probe (if clean then Some s else None) rs
+  && fc_ok c fc.
+
 End Check.
 
 (* ---- the file-system model of C04 (Server/FS.v) applied to the cache file: constructors under
@@ -267,6 +285,11 @@ Definition check (c : case) : bool :=
     check_hist tbl rfail cin names allow age ia now0 probe cok creqs cwok cobs steps
                (check_conc tbl names age now probe evs writes rs fc served1)
   | CConc _ _ _ _ _ _ _ => false
+  | CSlow (CHist tbl rfail cin names allow age ia now0 probe cok creqs cwok cobs steps) offered landed rs fc =>
+    check_hist tbl rfail cin names allow age ia now0 probe cok creqs cwok cobs steps
+               (check_slow tbl names age probe offered landed rs fc)
+  | CSlow _ _ _ _ _ => false
+  | CFc tbl cin fc => fc_ok tbl cin (Some fc)
   | CTrace expect_ok t => if expect_ok then atomic_write_ok t else failed_write_ok t
   | CInject panicked content t => negb panicked && ((content =? 0)%N || (content =? 1)%N) && failed_write_ok t
   | CFs old new tr => Setec.Server.FS.atomic_replace_ok N.eqb old new tr
